@@ -146,7 +146,7 @@ func (b *batch) get(key []byte) []byte {
 	if ok {
 		return v.val
 	}
-	val, _ := b.store.Get(context.Background(), key)
+	val, _ := b.store.get(key)
 	return val
 }
 
